@@ -210,4 +210,12 @@ pub trait MetadataClient: Send + Sync {
     async fn has_active_split(&self) -> Result<bool> {
         Ok(false) // Default: no splits active
     }
+
+    /// Ids of the new shards of every split that is in the dual-write or backfill phase.
+    ///
+    /// Chunks under these shards are copies of rows that the old shard still holds (dual
+    /// writes and back-filled chunks); readers skip them until the split has cut over.
+    async fn active_split_new_shards(&self) -> Result<Vec<String>> {
+        Ok(Vec::new()) // Default: no splits active
+    }
 }
